@@ -475,6 +475,25 @@ func (e *Engine) lookupIntrinsic(fn *ssa.Function) intrinsic {
 	if intr, ok := e.intrinsics[name]; ok {
 		return intr
 	}
+	for _, sname := range e.cfg.StubFuncs {
+		if sname == name {
+			return func(p *Path, fr *frame, pos token.Pos, args []Value) Value {
+				p.eng.noteStub(p.harness, "stubbed (empty body, zero results): "+name)
+				res := fn.Signature.Results()
+				switch res.Len() {
+				case 0:
+					return nil
+				case 1:
+					return p.zero(res.At(0).Type())
+				}
+				t := make(Tuple, res.Len())
+				for i := range t {
+					t[i] = p.zero(res.At(i).Type())
+				}
+				return t
+			}
+		}
+	}
 	if strings.HasPrefix(fn.Name(), "verif") && fn.Pkg != nil && fn.Signature.Recv() == nil {
 		if intr, ok := e.intrinsics["@"+fn.Name()]; ok {
 			return intr
